@@ -90,7 +90,7 @@ class UndoRedo(Monitor):
           break
       if ok:
         final = d2.dump()
-        base = ctx.base['dump']
+        base = ctx.base['dump_L'] if ctx.origin == 'L' else ctx.base['dump']
         if final != base:
           diffs = H.diff_dumps(base, final)
           yield (vkey('C01', 'history-undo-mismatch', ctx, diffs),
@@ -120,7 +120,7 @@ class Interp(Monitor):
       # load_empty() pre-creates the metadata tables that InitNewDoc's stored AddTable actions
       # describe, so the interpreter starts empty and InitNewDoc builds everything.
     else:
-      base = ctx.base['dump']
+      base = ctx.base['dump_L']
       it = R.RefInterp.from_dump(base, _types_for(base))
     try:
       for stored in ctx.log:
